@@ -66,6 +66,12 @@ pub fn get(v: &[u8], off: usize, size: usize) -> u64 {
 
 /// Writes the file; returns the bytes and, for every PT_LOAD, nothing else is needed because the
 /// spec itself is the expected image.
+thread_local! {
+    /// p_paddr of every program header: the virtual address (what GNU ld writes) or 0 (what the
+    /// System V ABI allows for user-space images: the field is unspecified)
+    pub static PADDR_ZERO: std::cell::Cell<bool> = std::cell::Cell::new(false);
+}
+
 pub fn write(spec: &ElfSpec) -> Vec<u8> {
     let n = spec.segs.len();
     let phoff = 64usize;
@@ -191,7 +197,7 @@ pub fn write(spec: &ElfSpec) -> Vec<u8> {
         put(&mut out, o + 4, 4, s.flags as u64);
         put(&mut out, o + 8, 8, offsets[k]);
         put(&mut out, o + 16, 8, s.vaddr);
-        put(&mut out, o + 24, 8, s.vaddr);
+        put(&mut out, o + 24, 8, if PADDR_ZERO.with(|p| p.get()) { 0 } else { s.vaddr });
         let filesz = if s.p_type == PT_PHDR { (56 * n) as u64 } else { s.file.len() as u64 };
         put(&mut out, o + 32, 8, filesz);
         put(&mut out, o + 40, 8, if s.p_type == PT_PHDR { filesz } else { s.memsz });
